@@ -447,6 +447,11 @@ pub fn finish(ctx: &Ctx, acc: &Acc, fin: Finish) -> i32 {
         }
     }
     if seen_keys.is_empty() {
+        if fin.distinct_nontrivial == 0 {
+            // a silent run that judged nothing is vacuous (e.g. an observation window such as the log keys disappeared)
+            eprintln!("[{}] MACHINERY: no non-trivial case was judged – the check is vacuous on this tree (exit 2)", ctx.prop);
+            return 2;
+        }
         0
     } else {
         1
